@@ -48,10 +48,11 @@ Print Assumptions c13_info_is_slice.
    with the implementation's on every accepted case of every run) reads back as the same torrent:
    the info dictionary byte for byte, hence the same info-hash, the same creation date, tracker
    tiers (a single tracker is written as "announce" only, anything else as "announce-list") and
-   web seeds.  For every info dictionary that is one bencoded value accepted by MetadataComplete,
+   web seeds.  For every info dictionary that is one bencoded value (nesting less than 64 levels: the file adds one
+   level and the reader refuses more than 64) accepted by MetadataComplete,
    every creation date, and all trackers and web seeds with URLs the reader accepts. *)
 Theorem c13_write_read : forall raw v k g cd tr ul hs,
-  bdecode raw = BOk v [] k -> metadata_complete raw = MOk g ->
+  bdecode raw = BOk v [] k -> vdepth v < 64 -> metadata_complete raw = MOk g ->
   (- 2 ^ 63 <= cd < 2 ^ 63)%Z -> tiers_ok tr -> urls_ok ul -> urls_ok hs ->
   read_torrent (write_torrent raw cd tr ul hs) = ROk raw g cd tr ul hs.
 Proof. exact write_read. Qed.
@@ -63,3 +64,18 @@ Theorem c13_parse_is_local : forall f u r v k,
   bparse f (u ++ r) = BOk v r k -> forall r', bparse f (u ++ r') = BOk v r' k.
 Proof. exact Proof.BencodeLocal.bparse_local. Qed.
 Print Assumptions c13_parse_is_local.
+
+(* Nesting is bounded (fix dc6da02; before it a few megabytes of nested lists in a .torrent file, in
+   metadata received for a magnet link or in a tracker's reply overflowed the recursive decoder's
+   stack and killed the process): an accepted file nests at most 64 levels deep, and so does an
+   accepted info dictionary. *)
+Theorem c13_depth_limited : forall bs raw g cd tr ul hs,
+  read_torrent bs = ROk raw g cd tr ul hs ->
+  exists es, top_entries bs = Some es /\ entries_depth es <= max_bencode_depth.
+Proof. exact read_torrent_depth. Qed.
+Print Assumptions c13_depth_limited.
+
+Theorem c13_metadata_depth_limited : forall info g,
+  metadata_complete info = MOk g -> exists v r k, bdecode info = BOk v r k /\ vdepth v <= max_bencode_depth.
+Proof. exact metadata_depth. Qed.
+Print Assumptions c13_metadata_depth_limited.
